@@ -2,6 +2,8 @@ package c14
 
 import (
 	"context"
+	"os"
+	"path/filepath"
 	"errors"
 	"fmt"
 	"strings"
@@ -11,6 +13,7 @@ import (
 	"pgregory.net/rapid"
 
 	"tunnox-core/internal/core/storage/hybrid"
+	jsonstorage "tunnox-core/internal/core/storage/json"
 	stypes "tunnox-core/internal/core/storage/types"
 	"tunnox-core/verif/vkit"
 )
@@ -51,6 +54,9 @@ type MCase struct {
 	FailAt int     `json:"fail_at"`
 	// Remote: the persistent tier is the real gRPC client (remote.Storage) talking to an in-process
 	// StorageService; RemoteFaults are injected by that service (no gate faults then).
+	// JSONTier: the persistent tier is the real JSON-file store (stand-alone deployment); a restart flushes it,
+	// closes it and loads the file again
+	JSONTier     bool     `json:"json_tier,omitempty"`
 	Remote       bool     `json:"remote_tier,omitempty"`
 	RemoteFaults []RFault `json:"remote_faults,omitempty"`
 }
@@ -106,6 +112,7 @@ type mworld struct {
 	rawGet        func(string) (any, bool)
 	extFault      func() string // kind of the fault the persistent tier has injected so far ("" = none)
 	closers       []func()
+	reopenPers    func() error // restart of the persistent tier (JSON: flush, close, load the file again)
 	h, h2         *hybrid.Storage
 	sharedOn      bool
 }
@@ -130,6 +137,33 @@ func newMWorld(shared bool, c MCase) (*mworld, string) {
 		}
 		w.pers, w.rawGet, w.extFault = rs, svc.rawGet, svc.faultKind
 		w.closers = append(w.closers, func() { rs.Close(); svc.stop() })
+	} else if c.JSONTier {
+		dir, err := os.MkdirTemp("", "c14json")
+		if err != nil {
+			return nil, err.Error()
+		}
+		path := filepath.Join(dir, "data.json")
+		open := func() error {
+			js, err := jsonstorage.New(&jsonstorage.Config{FilePath: path, AutoSave: false})
+			if err != nil {
+				return err
+			}
+			w.pers = js
+			w.rawGet = func(k string) (any, bool) { v, err := js.Get(k); return v, err == nil }
+			return nil
+		}
+		if err := open(); err != nil {
+			return nil, err.Error()
+		}
+		w.reopenPers = func() error {
+			js := w.pers.(*jsonstorage.Storage)
+			if err := js.Flush(); err != nil {
+				return err
+			}
+			js.Close()
+			return open()
+		}
+		w.closers = append(w.closers, func() { w.pers.(*jsonstorage.Storage).Close(); os.RemoveAll(dir) })
 	} else {
 		gp := vkit.NewGatePersistent(w.g, "pers")
 		w.pers, w.rawGet = gp, gp.RawGet
@@ -142,6 +176,11 @@ func newMWorld(shared bool, c MCase) (*mworld, string) {
 }
 
 func (w *mworld) restart() {
+	if w.h != nil && w.reopenPers != nil {
+		if err := w.reopenPers(); err != nil {
+			panic("HARNESS-ERROR json tier restart: " + err.Error())
+		}
+	}
 	if w.h != nil {
 		w.h.Close()
 		w.h2.Close()
@@ -747,4 +786,42 @@ func TestSlowPersistentRead(t *testing.T) {
 		}
 	}
 	vkit.Exhaustive("slow persistent read x {delete,set} x persistent-backed keys x shared tier", true)
+}
+
+// TestModelJSONTier: the same sequential histories over hybrid{memory cache, JSON-file persistent tier}, single node,
+// persistent-backed keys, with restarts that flush, close and reload the file (deleting the last key included).
+func TestModelJSONTier(t *testing.T) {
+	vkit.Check(t, 400, 12000, func(t *rapid.T) {
+		c := genModelCase(t)
+		c.JSONTier, c.Shared, c.FailAt = true, false, -1
+		backed := []string{"tunnox:user:k7", "tunnox:port_mapping:k7", "tunnox:mappings:list", "tunnox:persist:clients:list", "tunnox:client_mappings:k7"}
+		nk := rapid.IntRange(1, 2).Draw(t, "jsonKeys")
+		c.Keys = nil
+		for i := 0; i < nk; i++ {
+			c.Keys = append(c.Keys, MKey{Key: backed[(rapid.IntRange(0, len(backed)-1).Draw(t, "jk")+i)%len(backed)], IsList: rapid.Bool().Draw(t, "jl")})
+		}
+		if len(c.Keys) == 2 && c.Keys[0].Key == c.Keys[1].Key {
+			c.Keys = c.Keys[:1]
+		}
+		for i := range c.Steps {
+			c.Steps[i].Slot %= len(c.Keys)
+			c.Steps[i].Node = 0
+		}
+		// make sure restarts and deletes are frequent
+		for i := range c.Steps {
+			switch rapid.IntRange(0, 5).Draw(t, "bias") {
+			case 0:
+				c.Steps[i].Op = "restart"
+			case 1:
+				c.Steps[i].Op = "delete"
+			}
+		}
+		reportModel(t, c, runModel(c))
+	})
+	// the boundary history: the only key is written, flushed, deleted, flushed, reloaded
+	for _, isList := range []bool{false, true} {
+		c := MCase{Model: true, JSONTier: true, FailAt: -1, Keys: []MKey{{Key: "tunnox:user:k7", IsList: isList}},
+			Steps: []MStep{{Op: "set", Val: "a"}, {Op: "restart"}, {Op: "get"}, {Op: "delete"}, {Op: "restart"}, {Op: "get"}, {Op: "exists"}, {Op: "restart"}, {Op: "get"}}}
+		reportModel(t, c, runModel(c))
+	}
 }
